@@ -60,3 +60,21 @@ def cify(f, fn, qualname, cname, renames=(), loop_contracts=None, ptypes=None, e
         text = ''.join(out)
     f.note('M2-cify', fn, 1, 0, len(text), '%s -> %s (line %d); loop contracts at ordinals %s' % (qualname, cname, d['line'], sorted(loop_contracts or {})))
     return '/* M2: mechanically C-ified from %s line %d (%s) */\n' % (fn, d['line'], qualname) + text + '\n'
+
+
+def umul_rewrite(text, variables):
+    """M2-mul (generic): every product chain whose factors are all size variables of the function (or a parenthesised
+    difference of them) is rewritten, left-associatively, into nested UMUL(a, b) applications of an uninterpreted function;
+    products with a constant factor (sizeof, CAPACITY, RATE, literals) are left alone.  Returns (text, number of chains)."""
+    var = r'(?:%s)' % '|'.join(sorted(map(re.escape, variables), key=len, reverse=True))
+    factor = r'(?:\b%s\b|\(\s*\b%s\b\s*-\s*(?:\b%s\b|\d+)\s*\))' % (var, var, var)
+    chain = re.compile(r'(?<![\w.)\]])(%s(?:\s*\*\s*%s)+)(?!\s*\*)(?![\w(])' % (factor, factor))
+    n = [0]
+    def rep(m):
+        parts = [x.strip() for x in re.split(r'\s*\*\s*', m.group(1))]
+        e = parts[0]
+        for q in parts[1:]:
+            e = 'UMUL(%s, %s)' % (e, q)
+        n[0] += 1
+        return e
+    return chain.sub(rep, text), n[0]
